@@ -224,36 +224,47 @@ def leaf(ctx, report, rule, facts, config, im, bodies, label):
 
 
 def static_accessor(ctx, report, rule, facts, config):
-    prog = ctx.program(facts)
+    from . import semq as Q
     sa = A.C + "::system::StaticAccessor"
     for m in ("reads", "writes"):
         b = facts.one(name=m, trait=A.T_ACCESSOR, self_head=sa)
         report.touched(b, config)
-        cs = [Callee(t["func"]) for bb, t in b.normal_calls()]
-        ok = len(cs) == 1 and cs[0].trait == A.T_SYSDATA and cs[0].name == m and cs[0].self_arg_s == "T"
-        ret = prog.bt(b).local(0)
-        ok = ok and ret[0] == "call"
-        report.ob(rule, "StaticAccessor::%s" % m, ok, "returns <T as SystemData>::%s()" % m if ok else "StaticAccessor::%s calls %s" % (m, [c.short() for c in cs]), site=b.loc(), config=config)
+        ev, ends = Q.sem(ctx, facts, b)
+        ok, seen = Q.forwards_once(ev, ends, lambda c, x: c.trait == A.T_SYSDATA and c.name == m and ev.self_arg(x[4]) == "T")
+        ok = ok and all(Q.is_call(ev, Q.strip(ev, e.ret), m) and Q.callee_of(ev, Q.strip(ev, e.ret)).trait == A.T_SYSDATA for e in Q.returns(ends))
+        report.ob(rule, "StaticAccessor::%s" % m, ok, "returns <T as SystemData>::%s()" % m if ok else "StaticAccessor::%s does not return <T as SystemData>::%s(): %s" % (m, m, seen), site=b.loc(), config=config)
     for m in ("setup", "fetch"):
         b = facts.one(name=m, trait=A.T_DYNSYSDATA, container="trait_impl", pred=lambda b: isinstance(b.self_head, str) and b.self_head.startswith("param:"))
         report.touched(b, config)
-        cs = [Callee(t["func"]) for bb, t in b.normal_calls()]
-        ok = len(cs) == 1 and cs[0].trait == A.T_SYSDATA and cs[0].name == m and cs[0].self_arg_s == "T"
-        report.ob(rule, "<T as DynamicSystemData>::%s" % m, ok, "forwards to <T as SystemData>::%s" % m if ok else "calls %s" % [c.short() for c in cs], site=b.loc(), config=config)
+        ev, ends = Q.sem(ctx, facts, b)
+        ok, seen = Q.forwards_once(ev, ends, lambda c, x: c.trait == A.T_SYSDATA and c.name == m and ev.self_arg(x[4]) == "T")
+        report.ob(rule, "<T as DynamicSystemData>::%s" % m, ok, "forwards to <T as SystemData>::%s" % m if ok else "does not forward exactly once: %s" % (seen,), site=b.loc(), config=config)
+
+    def loud(b):
+        ev, ends = Q.sem(ctx, facts, b)
+        return sorted(set(x[2].name for e in ends for x in Q.calls_in(e.path.events, lambda c: c.local or c.name not in Q.BENIGN_STD, deep=True)))
     # System::accessor default builds the static accessor; BatchUncheckedWorld::fetch borrows nothing
     buw = facts.one(name="fetch", trait=A.T_DYNSYSDATA, self_head=A.BUW)
-    cs = [Callee(t["func"]).short() for bb, t in buw.normal_calls()]
+    cs = loud(buw)
     report.ob(rule, "BatchUncheckedWorld::fetch", not cs, "borrows nothing" if not cs else "calls %s" % cs, site=buw.loc(), config=config)
     buws = facts.one(name="setup", trait=A.T_DYNSYSDATA, self_head=A.BUW)
-    cs = [Callee(t["func"]).short() for bb, t in buws.normal_calls()]
+    cs = loud(buws)
     report.ob(rule, "BatchUncheckedWorld::setup", not cs, "sets nothing up itself" if not cs else "calls %s" % cs, site=buws.loc(), config=config)
     # () accessor / PhantomData accessor report nothing
     for head in ("tuple:0", "std::marker::PhantomData"):
         for m in ("reads", "writes"):
             bs = facts.find(name=m, trait=A.T_ACCESSOR, self_head=head)
             for b in bs:
-                cs = [Callee(t["func"]).name for bb, t in b.normal_calls()]
-                report.ob(rule, "Accessor/%s/%s" % (head, m), cs == ["new"], "returns Vec::new()", site=b.loc(), config=config)
+                ev, ends = Q.sem(ctx, facts, b)
+                ok = bool(Q.returns(ends))
+                for e in Q.returns(ends):
+                    r = Q.strip(ev, e.ret)
+                    empty = (Q.is_call(ev, r, "new") and "Vec" in (Q.callee_of(ev, r).path or "") and not r[2]) or (Q.is_call(ev, r, "default") and not r[2]) \
+                        or (isinstance(r, tuple) and r[0] == "agg" and r[1] == "veclit" and not r[3])
+                    filled = Q.calls_in(e.path.events, lambda c: c.name in ("push", "extend", "insert", "append", "extend_from_slice"), deep=True)
+                    if not empty or filled:
+                        ok = False
+                report.ob(rule, "Accessor/%s/%s" % (head, m), ok, "returns an empty Vec", site=b.loc(), config=config)
 
 
 def all_impls(ctx, report, facts, config, pfx, label_prefix="", only_kinds=("leaf", "tuple", "derive"), methods=METHODS):
